@@ -8,10 +8,11 @@ use crate::{error::ErrorData, error::ToLocated};
 use std::f32::consts::PI;
 use std::rc::Rc;
 
-fn apply<R: RealNumberInternalTrait>(
+/// Splits the arguments of `(apply proc arg ... args)` into the procedure to call and its
+/// argument list (the last argument is spread).
+pub(crate) fn spread_apply_arguments<R: RealNumberInternalTrait>(
     arguments: impl IntoIterator<Item = Value<R>>,
-    env: Rc<Environment<R>>,
-) -> Result<Value<R>> {
+) -> Result<(Procedure<R>, ArgVec<R>)> {
     let mut iter = arguments.into_iter();
     let proc = iter.next().unwrap().expect_procedure()?;
     let mut args = iter.collect::<ArgVec<R>>();
@@ -24,6 +25,14 @@ fn apply<R: RealNumberInternalTrait>(
         };
         args.extend(extended);
     }
+    Ok((proc, args))
+}
+
+fn apply<R: RealNumberInternalTrait>(
+    arguments: impl IntoIterator<Item = Value<R>>,
+    env: Rc<Environment<R>>,
+) -> Result<Value<R>> {
+    let (proc, args) = spread_apply_arguments(arguments)?;
     Interpreter::apply_procedure(&proc, args, &env)
 }
 
